@@ -56,23 +56,50 @@ def quantize_complex(x, target_mean=0, target_std=32/(2*np.sqrt(2*np.log(2))), n
 '''
 
 
+def mentions_std(t):
+    return any((a.kind == 'sym' and a.args[0] == 'data_std') or
+               (a.kind == 'sub' and 'estimate_stats' in pretty(Term.of(a))) for a in T.all_atoms(t).values())
+
+
 def run(ctx):
     T.NOTNONE.update({'data_std', 'data_mean'})
     # ---- D1 scale / round / clip / cast
     ctx.clause = 'D1'
     qr = ctx.func(Q + 'quantize_real')
     r, I = ctx.run(qr, no_inline=(DSM + 'estimate_stats',))
-    spec = ctx.spec(qr, 'xp.clip(xp.around(ITE(data_std == 0, 0, target_std / data_std) * (x - data_mean) + target_mean), '
-                        '-2**(num_bits - 1), 2**(num_bits - 1) - 1).astype(int)')
+    # The statement's two arms, with the code's own zero-variance test G left free:  G ? round(target_mean) : round(scaled).
+    # G itself must be a tolerance test (see FLOATEQ below), so it is not compared with a fixed expression.
+    fa_ = [e for e in I.events if e.kind == 'store' and e.data.get('target') == 'name' and e.pc
+           and any(mentions_std(c) for c in e.pc) and e.data['value'].const() == 0]
+    ctx.require(fa_, 'quantize_real: the zero-variance arm (factor 0 under a test of data_std) was not found')
+    G = fa_[0].cond()
+    spec = ctx.spec(qr, 'xp.clip(xp.around(ITE(G, 0, target_std / data_std) * (x - data_mean) + target_mean), '
+                        '-2**(num_bits - 1), 2**(num_bits - 1) - 1).astype(int)', env={'G': G})
     ctx.formula('FORMULA', 'quantize_real == int(clip(round(factor*(x-mean)+target_mean), -2^(b-1), 2^(b-1)-1)), factor 0 for zero variance',
                 qr, r.ret, spec, node=qr.node, construct='return quantize_real')
+    # FLOATEQ: a constant input has zero variance, but its COMPUTED deviation is zero only up to the rounding of the mean
+    # (np.std(np.full(3, 0.1)) == 1.4e-17): the test must hold for every data_std <= c*|data_mean| (some c > 0), an exact
+    # `== 0` sends such input through target_std / 1e-17
+    ga = G.single_atom()
+    exact = ga is not None and ga.kind == 'cmp' and ga.args[0] == '=='
+    tol = False
+    if ga is not None and not exact:
+        inner = ga.args[0].single_atom() if ga.kind == 'not' else ga
+        if inner is not None and inner.kind == 'cmp' and inner.args[0] == '<':
+            d = inner.args[1] - inner.args[2]
+            tol = mentions_std(d) and any(a.kind == 'call' and a.args[0] == 'abs' for a in T.all_atoms(d).values())
+    ctx.ob('FLOATEQ', 'the zero-variance test tolerates the rounding of the mean (data_std <= c*|data_mean|), it is not an exact '
+           'comparison with 0', qr, (not exact) and tol, {'test': pretty(G)}, node=fa_[0].node, construct='zero-variance test of data_std')
     T.NOTNONE.discard('data_std')
     T.NOTNONE.discard('data_mean')
     r2, I2 = ctx.run(qr, args={'data_std': T.NONE}, no_inline=(DSM + 'estimate_stats',))
-    spec2 = ctx.spec(qr, 'xp.clip(xp.around(ITE(data_stream.estimate_stats(x, stats_calc_num_samples)[1] == 0, 0, '
+    fb_ = [e for e in I2.events if e.kind == 'store' and e.data.get('target') == 'name' and e.pc
+           and any(mentions_std(c) for c in e.pc) and e.data['value'].const() == 0]
+    ctx.require(fb_, 'quantize_real[data_std=None]: the zero-variance arm was not found')
+    spec2 = ctx.spec(qr, 'xp.clip(xp.around(ITE(G, 0, '
                          'target_std / data_stream.estimate_stats(x, stats_calc_num_samples)[1]) * '
                          '(x - data_stream.estimate_stats(x, stats_calc_num_samples)[0]) + target_mean), '
-                         '-2**(num_bits - 1), 2**(num_bits - 1) - 1).astype(int)',
+                         '-2**(num_bits - 1), 2**(num_bits - 1) - 1).astype(int)', env={'G': fb_[0].cond()},
                      I=ctx.interp(no_inline=(DSM + 'estimate_stats',)))
     ctx.formula('FORMULA', 'without supplied statistics both moments come from estimate_stats(x, n)', qr, r2.ret, spec2,
                 node=qr.node, construct='return quantize_real [data_std=None]')
